@@ -30,7 +30,7 @@ def scenarios(prop, lentil, rng):
             mk = lambda: lentil.DispersiveTilt(trace=[2.0, 1.0, 0.0], dispersion=[5e-5, 1e-6, 650e-9])
             fresh = [mk().shift(wavelength=w_) for w_ in (700e-9, 655e-9, 720e-9)]
             obj = mk()
-            for w_ in (650e-9, 800e-9, 690e-9):
+            for w_ in (500e-9, 900e-9, 640e-9, 450e-9, 1000e-9, 640e-9):      # (far enough apart to leave the neighbourhood of one root)
                 obj.shift(wavelength=w_)
             used = [obj.shift(wavelength=w_) for w_ in (700e-9, 655e-9, 720e-9)]
             return _close(np.asarray(used, float), np.asarray(fresh, float), 1e-7), {'fresh': np.asarray(fresh).tolist(), 'used': np.asarray(used).tolist()}
@@ -56,6 +56,21 @@ def scenarios(prop, lentil, rng):
                 worst = max(worst, float(np.abs(p1.data - c_ * arr).max()), float(np.abs(p2.data - c_ * arr).max()))
             return worst <= 1e-14 * float(np.abs(arr).max()), {'worst': worst}
         add('a constant field within 1e-5 of 1 (a ppm transmission, a tiny piston phasor) times an array', near_unit_constant)
+
+    if prop in ('C06', 'C07', 'C10'):
+        def ndarray_offset_twice():
+            data = rng.normal(size=(3, 4)) + 1j * rng.normal(size=(3, 4))
+            ok = True
+            for off in ([2, -3], [-5, 1], [0, 6]):
+                for shape in ((12, 15), (9, 8)):
+                    oarr = np.array(off)
+                    f = F.Field(data.copy(), offset=oarr)
+                    want = F.insert(F.Field(data.copy(), offset=list(off)), np.zeros(shape, complex))
+                    a = F.insert(f, np.zeros(shape, complex))
+                    b = F.insert(f, np.zeros(shape, complex))
+                    ok = ok and np.array_equal(a, want) and np.array_equal(b, want) and np.array_equal(np.asarray(f.offset), off) and np.array_equal(oarr, off)
+            return ok, {}
+        add('a Field whose offset is an integer ndarray inserted twice', ndarray_offset_twice)
 
     if prop in ('C06',):
         def centre_identity():
@@ -89,6 +104,24 @@ def scenarios(prop, lentil, rng):
             return (_close(a, b, 1e-12) and _close(a, c, 1e-9) and _close(fld, ref, 1e-12)), {}
         add('a wavefront whose field samples are edited in place between two uses', field_after_edit)
 
+    if prop in ('C09',):
+        def tilt_refused_both_directions():
+            amp = np.asarray(lentil.circle((16, 16), 6), float)
+            w = lentil.Wavefront(5e-7) * lentil.Pupil(amplitude=amp, pixelscale=1 / 32, focal_length=10.0)
+            du = 5e-7 * 10.0 * 2 / ((1 / 32) * 40)
+            img = lentil.propagate_fft(w, pixelscale=du, shape=8, oversample=2) * lentil.Tilt(x=2e-3, y=-1e-3)
+            outcomes = []
+            for wt in (img, w * lentil.Tilt(x=1e-6, y=0.0)):
+                try:
+                    lentil.propagate_fft(wt, pixelscale=1 / 32 if wt is img else du, oversample=1)
+                    outcomes.append('accepted')
+                except NotImplementedError:
+                    outcomes.append('refused')
+                except Exception as e:
+                    outcomes.append(type(e).__name__)
+            return outcomes == ['refused', 'refused'], {'image->pupil, pupil->image': outcomes}
+        add('tilt metadata is refused by the FFT propagator in both directions (image to pupil too)', tilt_refused_both_directions)
+
     if prop in ('C08', 'C07'):
         def reused_operands():
             w = lentil.Wavefront(6e-7)
@@ -115,17 +148,46 @@ def scenarios(prop, lentil, rng):
             return ok, {'outcomes': outcomes, 'w': str(w.ptype)}
         add('a none wavefront used for several products; one forbidden pair attempted three times', reused_operands)
 
+        def positional_plane():
+            table = {'none': {'none': 'none', 'pupil': 'pupil', 'image': 'image', 'tilt': 'none', 'transform': 'none'},
+                     'pupil': {'pupil': 'pupil', 'tilt': 'pupil', 'transform': 'pupil'}, 'image': {'image': 'image', 'tilt': 'image', 'transform': 'image'}}
+            bad = []
+            for form in ('object', 'string'):
+                for start, row in table.items():
+                    for pt in ('none', 'pupil', 'image', 'tilt', 'transform'):
+                        arg = lentil.ptype(pt) if form == 'object' else pt
+                        try:
+                            # the documented order: amplitude, opd, mask, pixelscale, diameter, ptype
+                            pl = lentil.Plane(1, 0, None, None, None, arg)
+                            if str(pl.ptype) != pt or float(pl.amplitude) != 1.0:
+                                bad.append([form, pt, 'built as ' + str(pl.ptype)])
+                                continue
+                            w = lentil.Wavefront(6.5e-7, ptype=start)
+                            try:
+                                got = str((w * pl).ptype)
+                            except TypeError:
+                                got = None
+                            if got != row.get(pt):
+                                bad.append([form, start, pt, got])
+                        except Exception as e:
+                            bad.append([form, pt, type(e).__name__])
+            return not bad, {'bad': bad[:5]}
+        add('Plane built with its arguments by position in the documented order (the plane type last)', positional_plane)
+
     if prop in ('C10', 'C11', 'C12'):
         def basis_memo():
             base = np.zeros((14, 20)); base[3:11, 2:9] = 1
             left, right = base, np.roll(base, 9, axis=1)
             modes = [1, 2, 3, 4, 7]
             ok = True
-            for normalize in (True, False, True):
-                for m in (left, right, left[::-1].copy(), right):
-                    B = np.asarray(Z.zernike_basis(m, modes, normalize=normalize), float)
-                    rows = np.array([np.asarray(Z.zernike(m, j, normalize=normalize), float) + np.zeros(m.shape) for j in modes])
-                    ok = ok and _close(B, rows, 1e-12)
+            seq = [(m_, nz) for nz in (True, False, True) for m_ in (left, right, left[::-1].copy(), right)] + \
+                  [(m_, nz) for m_ in (left, right) for nz in (True, False, True, True, False)]
+            for m, normalize in seq:
+                B = np.asarray(Z.zernike_basis(m, modes, normalize=normalize), float)
+                rows = np.array([np.asarray(Z.zernike(m, j, normalize=normalize), float) + np.zeros(m.shape) for j in modes])
+                ok = ok and _close(B, rows, 1e-12)
+                Bv = np.asarray(Z.zernike_basis(m, modes, True, normalize), float)
+                ok = ok and _close(Bv.reshape(B.shape), rows, 1e-12)
             return ok, {}
         add('zernike_basis for translated / flipped masks and both normalisations in a row', basis_memo)
 
@@ -296,6 +358,23 @@ def scenarios(prop, lentil, rng):
             mean_ = float(np.mean(np.asarray(D.read_noise(np.zeros((200, 200)), 5.0, 2024), float)))
             return ok and abs(mean_) < 0.5, {'mean': mean_}
         add('seeds and model parameters passed by position in the documented order', positional_seed)
+
+    if prop in ('C05', 'C01'):
+        def dft2_out_views():
+            Fm = lentil.fourier
+            f = rng.normal(size=(12, 12)) + 1j * rng.normal(size=(12, 12))
+            P = float(np.sum(np.abs(f) ** 2))
+            ref = Fm.dft2(f, 1 / 24, shape=24)
+            frame = np.zeros((40, 40), complex)
+            view = frame[8:32, 8:32]
+            r1 = Fm.dft2(f, 1 / 24, shape=24, out=view)
+            buf = np.zeros((24, 36), complex, order='F')
+            r2 = Fm.dft2(f, (1 / 24, 1 / 36), shape=(24, 36), out=buf)
+            ok = _close(view, ref, 1e-13) and _close(r1, ref, 1e-13) and abs(float(np.sum(np.abs(frame) ** 2)) - P) <= 1e-10 * P
+            ok = ok and abs(float(np.sum(np.abs(buf) ** 2)) - P) <= 1e-10 * P and _close(r2, buf, 1e-15)
+            g = Fm.idft2(ref, 1 / 24, shape=12, out=np.zeros((20, 20), complex)[3:15, 3:15])
+            return ok and _close(g, f, 1e-12), {}
+        add('dft2 / idft2 into strided views and Fortran-ordered buffers keep the power (unitary)', dft2_out_views)
 
     if prop in ('C05',):
         def power_of_subclasses():
